@@ -106,6 +106,8 @@ type vsFakePoll struct {
 	deleted    bool
 	adds, dels int
 	frees      int
+	ctlPoint   bool // C08: epoll_ctl(MOD) is a schedule point of its own (the lifecycle scenarios keep their schedules)
+	interestW  bool // EPOLLOUT interest as set by PollR2RW / PollRW2R (C08: write events are fetched only while it is set and !deleted)
 }
 
 func (p *vsFakePoll) Wait() error    { return nil }
@@ -124,8 +126,16 @@ func (p *vsFakePoll) Control(operator *FDOperator, event PollEvent) error {
 		p.dels++
 		p.s.ghost("epoll del")
 	case PollR2RW:
+		if p.ctlPoint {
+			p.s.point("poll.ctl")
+		}
+		p.interestW = true
 		p.s.ghost("epoll mod rw")
 	case PollRW2R:
+		if p.ctlPoint {
+			p.s.point("poll.ctl")
+		}
+		p.interestW = false
 		p.s.ghost("epoll mod r")
 	}
 	return nil
@@ -156,6 +166,7 @@ type vsLifeRun struct {
 	initDone bool
 	peerShut bool
 	hups     []func(p Poll) error
+	skipped  bool // the last handle() found the operator token taken (level-triggered epoll would report the event again)
 	br       barrier
 	nReq     int
 	fdClosed int
@@ -325,7 +336,9 @@ func (r *vsLifeRun) appendHup(op *FDOperator) {
 
 // handle processes one epoll event for the operator; returns true when the hang-up was appended.
 func (r *vsLifeRun) handle(op *FDOperator, evt uint32) bool {
+	r.skipped = false
 	if !op.do() {
+		r.skipped = true
 		r.s.ghost("poller skip")
 		return false
 	}
